@@ -154,6 +154,12 @@ class Effects:
             if kind == 'ctor':
                 return {'fresh'}
             cn = chain(e.func) or ''
+            # library calls that may hand back their argument itself (no copy when the type already fits), or a view of it
+            if cn.split('.')[-1] in ('asarray', 'asanyarray', 'ascontiguousarray', 'atleast_1d', 'atleast_2d', 'ravel', 'squeeze', 'reshape', 'transpose', 'swapaxes', 'broadcast_to', 'asfarray') \
+                    and cn.split('.')[0] in ('np', 'numpy') and e.args:
+                return self.classify(e.args[0], env, fi, env_types)
+            if cn.split('.')[-1] in ('array', 'Quantity') and e.args and any(k.arg == 'copy' and isinstance(k.value, ast.Constant) and k.value.value is False for k in e.keywords):
+                return self.classify(e.args[0], env, fi, env_types)
             # methods returning views of their receiver
             if isinstance(e.func, ast.Attribute) and e.func.attr in ('view', 'reshape', 'ravel', 'swapaxes', 'transpose', 'squeeze', 'diagonal'):
                 return self.classify(e.func.value, env, fi, env_types)
